@@ -3,18 +3,31 @@ package main
 import (
 	"fmt"
 
-	"github.com/cocosip/go-dicom-codecs/jpeg2000"
+	"verif/internal/gen"
+	"verif/internal/props"
 )
 
 func main() {
-	for _, bd := range []int{8, 16} {
-		for _, lv := range []int{0, 1, 2, 5} {
-			q := jpeg2000.CalculateOpenJPHQuantizationParams(lv, bd, true)
-			fmt.Printf("bd=%d levels=%d guard=%d exps=", bd, lv, q.GuardBits)
-			for _, s := range q.EncodedSteps {
-				fmt.Printf("%d ", s>>3)
-			}
-			fmt.Println()
+	cd := props.Codec(".201")
+	info := props.FrameInfo(7, 18, 16, 13, 1, 0, 0)
+	px := gen.PackN(gen.Content(gen.New(3), "noise", 7, 18, 1, 13, 0), 2)
+	enc := props.NewPD(info)
+	if err := cd.Encode(props.NewPD(info, px), enc, nil); err != nil {
+		panic(err)
+	}
+	cs := enc.Frames[0]
+	buf := make([]byte, len(cs)+32)
+	copy(buf, cs)
+	for i := len(cs); i < len(buf); i++ {
+		buf[i] = 0xA5
+	}
+	in := buf[:len(cs)]
+	keep := append([]byte(nil), buf...)
+	dec := props.NewPD(info)
+	fmt.Println(cd.Decode(props.NewPD(info, in), dec, nil))
+	for i := range buf {
+		if buf[i] != keep[i] {
+			fmt.Printf("byte %d (len %d): %02x -> %02x\n", i, len(cs), keep[i], buf[i])
 		}
 	}
 }
